@@ -252,6 +252,10 @@ class Walker:
                 if ":" in part:
                     fields.append(self.operand(part.split(":", 1)[1], env, fid, events))
             return ("agg", m.group(1).strip(), fields)
+        m = re.fullmatch(r"[\w:<>(), &'\[\]]+?::(Ok|Err|Some|None)(?:\((.*)\))?", txt, re.S)
+        if m and not txt.startswith(("copy ", "move ", "const ")):
+            inner = m.group(2)
+            return ("agg", m.group(1), [self.operand(a, env, fid, events) for a in split_top(inner)] if inner else [])
         m = re.fullmatch(r"\[.*\]|\(.*\)", txt, re.S)
         if m and not txt.startswith("(*") and not re.match(r"^\(.+\.\d+: ", txt) and not re.match(r"^\(.+ as \w+\)", txt):
             return ("unk", "tuple/array")
